@@ -8,61 +8,61 @@ V = os.path.dirname(os.path.dirname(os.path.abspath(__file__)))
 TECH = "symbolic execution of the real Python code over z3 terms (symx), SMT (z3) decides each obligation per path, counterexample replay"
 
 CLAIMED = {
-    "C01": dict(text="the chain that puts a grid point on its flux surface, link by link on the real code: followPerpendicular ordering for every position of the start psi (solve_ivp = flow contract), contour assembly slice of MeshRegion.__init__, fillRZ index map and X-point pinning, Newton acceptance test, refinePoint dispatch",
+    "C01": dict(text="the chain that puts a grid point on its flux surface, link by link on the real code: followPerpendicular ordering for every position of the start psi (solve_ivp = flow contract), contour assembly slice of MeshRegion.__init__, fillRZ index map and X-point pinning, Newton acceptance test, refinePoint dispatch; the problem handed to the integrator (RHS, initial state); getRZBoundary; collection of region arrays into the global arrays and the file variable names for every location/corner variant",
                 note="CONDITIONAL on the numerical kernels meeting their contracts (solve_ivp flow, psi a function); accuracy/convergence of integration, Newton and splines not decided; psivals lists <= 5, 3x3 assembly, nx=1 ny=2 fillRZ",
                 tech=TECH + "; uninterpreted functions for psi and the flow; AST slice"),
-    "C02": dict(text="real calcMetric/geometry2/calcBeta/geometry1 run on symbolic reals; z3 (after exact rational-function normalisation) shows every metric identity, the closed forms, the displacement scalar products and the sign logic for all real inputs of the stated domain",
+    "C02": dict(text="real calcMetric/geometry2/calcBeta/geometry1 run on symbolic reals; z3 (after exact rational-function normalisation) shows every metric identity, the closed forms, the displacement scalar products and the sign logic for all real inputs of the stated domain; the displacement obligations take the grid stencil and the grad(psi) direction as inputs and run the REAL calcBeta (no sign convention assumed); geometry1 with the equilibrium functions as uninterpreted functions of the evaluation point",
                 note="reals not IEEE doubles; DDX/calc_curvature/calcHy stubbed; hy, beta, Bp taken as given; 1x1 region (element-wise formulas); locally linear psi for the displacement obligations",
                 tech=TECH + "; QF_NRA"),
-    "C03": dict(text="real geometry1 on an uninterpreted equilibrium, real interpolant closures, and AST slices of TokamakEquilibrium.__init__ (sign/2pi options, pressure extrapolation, profile-spline set-up and evaluation abscissa, scalars) plus the pressure-reflection closures of the real createRegionObjects, all on symbolic values; z3 decides each stated relation",
+    "C03": dict(text="real geometry1 on an uninterpreted equilibrium, real interpolant closures, and AST slices of TokamakEquilibrium.__init__ (sign/2pi options, pressure extrapolation, profile-spline set-up and evaluation abscissa, scalars) plus the pressure-reflection closures of the real createRegionObjects, all on symbolic values; z3 decides each stated relation; fpolprime = d(fpol)/dpsi by AD through the real methods; header scalars written to the file",
                 note="spline contract stubs; exp uninterpreted; bounded array sizes (2x2, 3 knots); that O/X-points are right is C19; spline accuracy not decided",
                 tech=TECH + "; AST slices of the current source"),
-    "C04": dict(text="mechanism of orthogonality on the real code: one followPerpendicular call per poloidal index with points stored at the radial index of their psi (shared with C01), integrated field = grad psi/|grad psi|^2, real calcBeta gives sinBeta=0 when the radial displacement is parallel to grad psi, orthogonal metric branch has no x-y off-diagonals",
+    "C04": dict(text="mechanism of orthogonality on the real code: one followPerpendicular call per poloidal index with points stored at the radial index of their psi (shared with C01), integrated field = grad psi/|grad psi|^2, real calcBeta gives sinBeta=0 when the radial displacement is parallel to grad psi, orthogonal metric branch has no x-y off-diagonals; f_R/f_Z evaluate the interpolant at the point they are given (real clip semantics, symbolic grid extent); ODE right-hand side and initial state at the integrator",
                 note="'to the tolerance of the integration' and the second-order remainder are not decided; solve_ivp flow contract assumed; X-point cells excluded",
                 tech=TECH),
-    "C05": dict(text="real calcHy and calcPoloidalDistance on open and periodic region chains with symbolic contour distances; real FineContour.calcDistance (chord sum) and getDistance (interpolation between bracketing nodes); z3 decides each arc-length relation, positivity, monotonicity, continuity across joins, totals",
+    "C05": dict(text="real calcHy and calcPoloidalDistance on open and periodic region chains with symbolic contour distances; real FineContour.calcDistance (chord sum) and getDistance (interpolation between bracketing nodes); z3 decides each arc-length relation, positivity, monotonicity, continuity across joins, totals; reversal of contours and total distances",
                 note="contour distances are symbolic strictly increasing arrays (that they are the true arc length, equaliseSpacing convergence and the quadratic convergence in Nfine are not decided); chain-internal regions start at distance 0; nx=1, ny=2",
                 tech=TECH),
     "C06": dict(text="real calcZShift on open and periodic region chains with quadrature/interpolation contract stubs and the real integrand closure; real DDX (with dx from the real geometry1) on a radial stack in all connection cases; real geometry2/calcMetric wiring; z3 decides zero at chain start, continuity across joins, ShiftAngle, integrand = Bt/(R|Bp|), DDX stencils and finiteness",
                 note="cumulative_trapezoid and interp1d replaced by contracts (T[0]=0, exact at nodes); 2-region chains, nx<=2, ny=1; trapezoid accuracy and 2*pi*q not decided",
                 tech=TECH),
-    "C07": dict(text="real calc_curvature on a stub region over the real field helper chain; reference curl(b/B) from forward-mode AD of the real Bp_R, Bp_Z, Bzeta, B2; z3/normal form decide the three contravariant components and bxcv for all values of psi's derivatives, fpol, fpol', R, hy, tanBeta, both signs of Bp",
+    "C07": dict(text="real calc_curvature on a stub region over the real field helper chain; reference curl(b/B) from forward-mode AD of the real Bp_R, Bp_Z, Bzeta, B2; z3/normal form decide the three contravariant components and bxcv for all values of psi's derivatives, fpol, fpol', R, hy, tanBeta, both signs of Bp; non-orthogonal case with beta from the real calcBeta and grad(y) as the dual basis vector of the actual grid; the 'x-y derivatives' formulation with exact directional derivatives equals the R-Z formulation; DDY stencils",
                 note="RectBivariateSpline contract (table of derivatives); Bp^2=|grad psi|^2/R^2, Bt=fpol/R assumed at the point; x-y-derivative formulation and smoothing not decided",
                 tech=TECH + "; forward-mode AD (jets), exact rational-function normal form"),
-    "C08": dict(text="real topology descriptors, Mesh/BoutMesh index code and the AST slice of writeGridfile run with symbolic integer sizes; z3 (LIA) decides tiling, connection symmetry, BOUT++ decoding of ixseps/jyseps == hypnotoad adjacency and index ordering for all sizes >= 1",
+    "C08": dict(text="real topology descriptors, Mesh/BoutMesh index code and the AST slice of writeGridfile run with symbolic integer sizes; z3 (LIA) decides tiling, connection symmetry, BOUT++ decoding of ixseps/jyseps == hypnotoad adjacency and index ordering for all sizes >= 1; circular core/limiter and isolated X-point (TORPEX) topologies; chi NaN mask; theta zero/continuity/2pi from the index expressions of the source; getRZBoundary and the global index map of the output arrays",
                 note="numerics (findLegs, coreRegionToRegion, segmentsWithPsivals) stubbed; BOUT++ reference semantics written in the harness; guards enumerated 0..4; coordinates on shared edges not decided",
                 tech=TECH + "; QF_LIA over unbounded sizes"),
-    "C09": dict(text="real getSmoothMonotonicGridFunc (linear, cubic, erf, trig cases) and make1dGrid on symbolic reals, derivatives by jets through the real closures; z3 decides end values, end gradients, zero second derivative at separatrix ends, monotonicity on [0,n] and resolution nesting for all n>=1 and all admissible parameters; descriptor hands the same dpsidi_sep to both sides of each separatrix",
+    "C09": dict(text="real getSmoothMonotonicGridFunc (linear, cubic, erf, trig cases) and make1dGrid on symbolic reals, derivatives by jets through the real closures; z3 decides end values, end gradients, zero second derivative at separatrix ends, monotonicity on [0,n] and resolution nesting for all n>=1 and all admissible parameters; descriptor hands the same dpsidi_sep to both sides of each separatrix; psi-decreasing descriptors; segmentsWithPsivals wiring; core/SOL/PFR limits from psi_*/psinorm_* options",
                 note="brentq replaced by a root contract; exp/erf/sin/cos uninterpreted with sound axioms; Si/Ci case only b>0; erf nesting not decided; reals not doubles",
                 tech=TECH + "; QF_NRA/UF with forward-mode AD (jets)"),
-    "C10": dict(text="real monotonic/sqrt/linear poloidal spacing constructors evaluated through numpy.piecewise on symbolic reals and jets; z3 decides s(0)=0, s(N)=L, end gradients in normalised index, straight-line extrapolations, positivity of ds/di (convex case), resolution nesting; _checkMonotonic and get_distance guard contracts",
+    "C10": dict(text="real monotonic/sqrt/linear poloidal spacing constructors evaluated through numpy.piecewise on symbolic reals and jets; z3 decides s(0)=0, s(N)=L, end gradients in normalised index, straight-line extrapolations, positivity of ds/di (convex case), resolution nesting; _checkMonotonic and get_distance guard contracts; getRegridded end points; spacing parameters by region kind (X-point ends share parameters, wall ends use their own leg's) and their roles in the constructors",
                 note="N = w^2 N_norm parametrisation; brentq -> root contract; log/exp uninterpreted; interior monotonicity of sqrt family and concave case not decided; reals not doubles",
                 tech=TECH + "; QF_NRA/UF with forward-mode AD (jets)"),
-    "C11": dict(text="index bookkeeping that puts the wall point at the contour's start/end index (real PsiContour.insert with symbolic indices incl. negative endInd; real addPointAtWallToContours for all intersection indices and proximity branches), penalty_mask on the real calcPenaltyMask/find_intersections for a rectangular wall (thorough tier), anticlockwise stored wall for every symbolic polygon",
+    "C11": dict(text="index bookkeeping that puts the wall point at the contour's start/end index (real PsiContour.insert with symbolic indices incl. negative endInd; real addPointAtWallToContours for all intersection indices and proximity branches), penalty_mask on the real calcPenaltyMask/find_intersections for a rectangular wall (thorough tier), anticlockwise stored wall for every symbolic polygon; real _find_intersection with a symbolic crossing oracle; penalty mask promoted to the quick tier (+ general/slanted walls thorough); closed wall array and closed_wall_R/Z written from the right columns",
                 note="_find_intersection stubbed by admissible index/point values; calc_distance arbitrary; wall-crossing predicate is C20; that the refined wall point stays on the wall and that cells between targets are inside the wall are not decided",
                 tech=TECH + "; LIA over symbolic indices, explorer choice points for index combinations"),
-    "C12": dict(text="GUARD CONTRACTS ONLY: for each fail-loud guard (make1dGrid, _checkMonotonic, get_distance, calcHy, Jacobian self-check, Bp-sign check, makeConnection, Mesh option consistency, DDX finiteness) 'returns => postcondition' / 'raises only if the precondition is violated' on the real code with symbolic data",
+    "C12": dict(text="GUARD CONTRACTS AND OPTION FILTERS (not whole-pipeline runs): for each fail-loud guard (make1dGrid, _checkMonotonic, get_distance, calcHy, Jacobian self-check, Bp-sign check, makeConnection, Mesh option consistency, DDX finiteness) 'returns => postcondition' / 'raises only if the precondition is violated' on the real code with symbolic data; the unused-option filter of the command-line scripts on a symbolic option name (z3 strings) and the shipped reference settings; the Jacobian check as last guard against hy <= 0 at every entry; documented variables have a writer; geometry stage order",
                 note="'shipped examples generate', presence/shape of output variables, 'no cell folded over', optionsfactory validation and the scripts' unused-option filter are whole-pipeline/I-O facts and are NOT claimed",
                 tech=TECH),
-    "C13": dict(text="real ParallelMap on a model of multiprocessing; every interleaving of queue operations within the bound is explored by the path explorer, the failing task index and the arrival permutation are z3 integers",
+    "C13": dict(text="real ParallelMap on a model of multiprocessing; every interleaving of queue operations within the bound is explored by the path explorer, the failing task index and the arrival permutation are z3 integers; two symbolic failing indices (which exception reaches the caller), a further call after as many failures as workers, equilibrium functions handed to tasks",
                 note="queues are reliable FIFOs, processes run only when scheduled, dill = identity, tasks pure; 2-3 workers, 1-3 tasks, <= 1 failing task",
                 tech="path exploration of the real code on a scheduler model (schedules = explorer choice points) with symbolic failing index / arrival permutation decided by z3 (LIA); replay on the model and on real multiprocessing"),
-    "C14": dict(text="ONE clause only: 'building an equilibrium does not modify the caller's input arrays' - the constructor's option-handling statements (AST slice) run on object arrays of symbols for all flag combinations; the caller's arrays are compared element-for-element with their original symbolic contents",
+    "C14": dict(text="the 'does not modify the caller's inputs / does not depend on earlier builds through them' clauses only: 'building an equilibrium does not modify the caller's input arrays' - the constructor's option-handling statements (AST slice) run on object arrays of symbols for all flag combinations; the caller's arrays are compared element-for-element with their original symbolic contents; option handling + profile-spline set-up run twice on the caller's same arrays (psi1D increasing/decreasing); wall list, settings dictionaries, R1D/Z1D unmodified",
                 note="the remaining clauses of C14 (run-to-run identity, YAML/CLI reproducibility, hidden state) are I/O and whole-pipeline facts outside solver-based checking and are NOT claimed; the comparison is structural (term identity), no arithmetic reasoning is needed",
                 tech="symbolic execution of an AST slice of the real constructor on z3-term payloads; structural comparison of the caller's arrays"),
-    "C16": dict(text="mirror symmetry of the real topology descriptors and index code (LSN<->USN, LDN<->UDN, CDN) over symbolic sizes (LIA), and sign / 2pi-scaling equivariance of the real geometry2+calcMetric outputs under psi->-psi, fpol->-fpol, psi->psi/k according to each component's tensor character",
+    "C16": dict(text="mirror symmetry of the real topology descriptors and index code (LSN<->USN, LDN<->UDN, CDN) over symbolic sizes (LIA), and sign / 2pi-scaling equivariance of the real geometry2+calcMetric outputs under psi->-psi, fpol->-fpol, psi->psi/k according to each component's tensor character; descriptors under psi -> -psi for five topologies; constructor option signs; non-orthogonal field reversal with the real calcBeta on the same grid points",
                 note="equality of the actual R,Z positions of mirrored grids and 'positions unchanged under field reversal' need the numerical pipeline and are not decided; inhomogeneous components (g33, g_22) excluded from the scaling claim",
                 tech=TECH + "; LIA + exact rational-function normal form"),
-    "C17": dict(text="reader pattern and writer formats read from the source and decided as z3 regular-expression/string queries; real write/read executed on symbolic payloads for layout/order; header widths decided in LIA (model validated against the real code each run)",
+    "C17": dict(text="reader pattern and writer formats read from the source and decided as z3 regular-expression/string queries; real write/read executed on symbolic payloads for layout/order; header widths decided in LIA (model validated against the real code each run); read_geqdsk field mapping; header model follows the reader's handling of completely filled i4 fields (probed on the real code each run)",
                 note="C printf %E language model; injective token pair for f2s/float; bounded sizes for layout; 2-digit exponents",
                 tech=TECH + "; z3 sequences/regex, LIA"),
-    "C18": dict(text="real spline-branch closures, real helper chain, real DCT_2D derivative methods compared with forward-mode AD of the real value functions; div B = 0; dispatch of multi-location arguments",
+    "C18": dict(text="real spline-branch closures, real helper chain, real DCT_2D derivative methods compared with forward-mode AD of the real value functions; div B = 0; dispatch of multi-location arguments; closure arguments under real clip; DCT constructor + node reproduction; DCT derivative methods up to 5x4 with nR != nZ; CircularEquilibrium analytic derivatives vs AD",
                 note="interpolant contract (returns partial derivatives of one function); point inside the box; DCT 2x2/3x2 coefficients; node reproduction and inter-method agreement not decided",
                 tech=TECH + "; forward-mode AD (jets), exact rational-function normal form"),
-    "C19": dict(text="SELECTION LOGIC ONLY (not the search): AST slices of find_critical (Hessian-determinant classification on the 5x5 stencil for a general quadratic psi; de-duplication, primary O-point, X-point ordering), of makeRegions (single/double-null decision with psinorm_sol and inside-wall predicate) and of findLegs (inner/outer labelling) on symbolic candidates",
+    "C19": dict(text="SELECTION LOGIC AND THE REFINEMENT LOOP'S CONTRACT (not the grid search): AST slices of find_critical (Hessian-determinant classification on the 5x5 stencil for a general quadratic psi; de-duplication, primary O-point, X-point ordering), of makeRegions (single/double-null decision with psinorm_sol and inside-wall predicate) and of findLegs (inner/outer labelling) on symbolic candidates; the Newton refinement loop of find_critical (acceptance only where Br^2+Bz^2<atol, true Jacobian by AD, step solves J d = B, at most two iterations)",
                 note="that every critical point is found once and to tolerance (grid search + Newton on a compiled spline) is NOT decided; O-X line test reduced to 3 samples; inside_wall arbitrary predicate",
                 tech=TECH + "; AST slices of the current source"),
-    "C20": dict(text="real find_intersections/closest_approach/polygons.* run on symbolic real coordinates; every path of the slope-class/sort/range logic explored; z3 (QF_NRA) compares with the exact parametric solution",
+    "C20": dict(text="real find_intersections/closest_approach/polygons.* run on symbolic real coordinates; every path of the slope-class/sort/range logic explored; z3 (QF_NRA) compares with the exact parametric solution; polygons.intersect: meaning of one edge-pair test on open polylines (full geometry) plus which edge pairs are tested for mixed closed/open polylines; wallIntersection dispatch",
                 note="reals not doubles; coordinates in [-8,8]; 1 wall edge x 1 segment (edges are processed element-wise); polygons <= 5 vertices; completeness away from near-parallel configurations",
                 tech=TECH + "; QF_NRA with lazy quotient abstraction"),
 }
